@@ -154,6 +154,15 @@ class SIte(V):
         return 'SIte(%s ? %r : %r)' % (self.c, self.a, self.b)
 
 
+class SUnbound(V):
+    """marker inside a lazy choice: the variable is not bound on that alternative"""
+    def __repr__(self):
+        return 'SUnbound'
+
+
+UNB = SUnbound()
+
+
 class STuple(V):
     __slots__ = ('items',)
 
